@@ -90,12 +90,27 @@ def modelStep (m : MSt) (l : Line) : MSt × Option (List Val) :=
         (MSt.d x.1, renderAns x.2.1 ++ [Val.ofInts x.2.2])) (Model.DList.stepObs h op)
       (r.1, some r.2)
 
+/-- a kept handle: the slot number of the harness, the address in the model's store (`none`: nil) and the position
+of the designated element by the specification's bookkeeping (`none`: it designates no element any more) -/
+structure Slot where
+  id : Nat
+  addr : Option Nat
+  idx : Option Nat
+
 structure St where
   dbl : Bool
   xs : List Int
   m : MSt
   headEdits : Nat := 0
   midEdits : Nat := 0
+  slots : List Slot := []
+  handleEdits : Nat := 0
+
+def moveSlots (dbl : Bool) (e : Edit) (slots : List Slot) : List Slot :=
+  slots.map fun sl => { sl with idx := sl.idx.bind (moveIdx dbl e) }
+
+def dropSlots (slots : List Slot) : List Slot := slots.map fun sl => { sl with idx := none }
+
 
 /-- answer-only result of a quiet operation -/
 def ansOfVals : List Val → Option Ans
@@ -110,7 +125,7 @@ def ansOfVals : List Val → Option Ans
 
 def quietStep (st : St) (l : Line) : Step St :=
   let bad (why : String) : Step St := { st := st, bad := some s!"list {l.op}: {why}" }
-  let st := { st with m := MSt.dead }
+  let st := { st with m := MSt.dead, slots := dropSlots st.slots }
   match l.op, l.args with
   | "fill", [.int a, .int n] =>
     if n < 0 then bad "negative count" else
@@ -139,6 +154,91 @@ def quietStep (st : St) (l : Line) : Step St :=
     | _ => bad "window result"
   | _, _ => bad "arguments"
 
+/-- model side of the handle operations: the pointer-level methods called with the kept address -/
+def modelHandle (m : MSt) (opn : String) (addr : Option Nat) (v : Int) : MSt × Option (List Val) :=
+  match m with
+  | .dead => (.dead, none)
+  | .s h =>
+    let r : Model.ListRes (Model.SList.Heap × Ans) :=
+      if opn == "deleteh" then Model.SList.delete h addr
+      else if opn == "insertafterh" then Model.SList.insertAfter h addr v
+      else .stuck
+    let r2 := r.bind fun (h1, ans) => (Model.SList.each h1).bind fun (h2, seq) => .ok (h2, ans, seq)
+    let o := renderRes (fun (x : Model.SList.Heap × Ans × List Int) =>
+      (MSt.s x.1, renderAns x.2.1 ++ [Val.ofInts x.2.2])) r2
+    (o.1, some o.2)
+  | .d h =>
+    let r : Model.ListRes (Model.DList.Heap × Ans) :=
+      if opn == "deleteh" then Model.DList.delete h addr
+      else if opn == "insertafterh" then Model.DList.insertAfter h addr v
+      else if opn == "insertbeforeh" then Model.DList.insertBefore h addr v
+      else .stuck
+    let r2 := r.bind fun (h1, ans) => (Model.DList.each h1).bind fun (h2, seq) => .ok (h2, ans, seq)
+    let o := renderRes (fun (x : Model.DList.Heap × Ans × List Int) =>
+      (MSt.d x.1, renderAns x.2.1 ++ [Val.ofInts x.2.2])) r2
+    (o.1, some o.2)
+
+/-- model side of `hold`: `Find`, keeping the address -/
+def modelHold (m : MSt) (x : Int) : MSt × Option Nat × Option (List Val) :=
+  match m with
+  | .dead => (.dead, none, none)
+  | .s h =>
+    match (Model.SList.find h x).bind fun (h1, r) => (Model.SList.each h1).bind fun (h2, seq) => .ok (h2, r, seq) with
+    | .ok (h2, r, seq) => (.s h2, r, some [Val.ofBool r.isSome, Val.ofInts seq])
+    | _ => (.dead, none, some [.atom "panic"])
+  | .d h =>
+    match (Model.DList.find h x).bind fun r => (Model.DList.each h).bind fun (h2, seq) => .ok (h2, r, seq) with
+    | .ok (h2, r, seq) => (.d h2, r, some [Val.ofBool r.isSome, Val.ofInts seq])
+    | _ => (.dead, none, some [.atom "panic"])
+
+/-- `hold k x` (keep the handle `Find(x)` in slot k) and the operations through a kept handle -/
+def handleStep (st : St) (l : Line) : Step St :=
+  let bad (why : String) : Step St := { st := st, bad := some s!"list {l.op}: {why}" }
+  match l.op, l.args with
+  | "hold", [.int k, .int x] =>
+    match parseRes l.res with
+    | some (ans, xs') =>
+      let (m', addr, mans) := modelHold st.m x
+      -- the first element lives in the list struct itself: a handle to it designates "the first slot", not an
+      -- element that keeps its identity under edits -- only handles to later elements are followed
+      let idx := match st.xs.idxOf? x with
+        | some (i + 1) => some (i + 1)
+        | _ => none
+      let slots := { id := k.toNat, addr := addr, idx := idx } :: st.slots.filter (fun sl => sl.id != k.toNat)
+      { st := { st with m := m', xs := xs', slots := slots }, model := mans, tags := ["hold"]
+        spec := if ans == .bool (st.xs.contains x) && xs' == st.xs then none else some "sequence:find" }
+    | none => bad "result"
+  | opn, .int k :: rest =>
+    match st.slots.find? (fun sl => sl.id == k.toNat), parseRes l.res with
+    | some sl, some (ans, xs') =>
+      let v : Int := match rest with
+        | [.int v] => v
+        | _ => 0
+      match sl.idx with
+      | none =>
+        -- the handle designates no element (by the rules of `Spec.C19.moveIdx`): nothing is specified; the case goes
+        -- on from the observed sequence, without the model and without the other handles
+        { st := { st with m := .dead, xs := xs', slots := dropSlots st.slots }, tags := [opn ++ ":unspecified-handle"] }
+      | some i =>
+        if i ≥ st.xs.length then bad "handle position out of range" else
+        let hop : Option HOp :=
+          if opn == "deleteh" then some (.deleteH i)
+          else if opn == "insertafterh" then some (.insertAfterH i v)
+          else if opn == "insertbeforeh" && st.dbl then some (.insertBeforeH i v)
+          else none
+        match hop with
+        | none => bad "operation"
+        | some hop =>
+          let (m', mans) := modelHandle st.m opn sl.addr v
+          let ok := decide (AllowedH st.xs hop ans xs')
+          let slots := if ok then moveSlots st.dbl (editOfH st.xs hop) st.slots else dropSlots st.slots
+          { st := { st with m := m', xs := xs', slots := slots, handleEdits := st.handleEdits + 1 }
+            model := mans, tags := [opn], nontrivial := true
+            spec := if ok then none else some s!"sequence:{opn}" }
+    | none, _ => bad "unknown slot"
+    | _, none => bad "result"
+  | _, _ => bad "arguments"
+
 def kindFor (dbl : Bool) : Kind where
   σ := St
   init := fun ps => match ps with
@@ -146,6 +246,8 @@ def kindFor (dbl : Bool) : Kind where
                          m := if dbl then .d (Model.DList.init v) else .s (Model.SList.init v) }
     | _ => none
   step := fun st l =>
+    let isHandle := l.op == "hold" || l.op == "deleteh" || l.op == "insertafterh" || l.op == "insertbeforeh"
+    if isHandle && l.res != [.atom "panic"] && l.res != [.atom "hang"] then handleStep st l else
     let (m', mans) := modelStep st.m l
     let st := { st with m := m' }
     match l.res with
@@ -166,10 +268,12 @@ def kindFor (dbl : Bool) : Kind where
       let midEdit := match op with
         | .insertAfter x _ | .insertBefore x _ | .delete x => st.xs.head? != some x && st.xs.contains x
         | _ => false
+      let ok := decide (Allowed dbl st.xs op ans xs')
       let st' : St := { st with xs := xs', headEdits := st.headEdits + (if headEdit then 1 else 0),
-                                midEdits := st.midEdits + (if midEdit then 1 else 0) }
+                                midEdits := st.midEdits + (if midEdit then 1 else 0)
+                                slots := if ok then moveSlots dbl (editOf st.xs op) st.slots else dropSlots st.slots }
       { st := st', model := mans, tags := [l.op], nontrivial := st'.headEdits ≥ 1 && st'.midEdits ≥ 1
-        spec := if decide (Allowed dbl st.xs op ans xs') then none else some s!"sequence:{l.op}" }
+        spec := if ok then none else some s!"sequence:{l.op}" }
     | _, _ => { st := st, bad := some s!"bad list line {l.op}" }
 
 end GoguVerif.Kinds.Lists
